@@ -62,18 +62,11 @@ def splitSemi (ts : Toks) : List Toks :=
     (math.Min/Max and the model's min/max may pick different zeros) -/
 def sameOutcome (a b : String) : Bool := a == b
 
-/-- `rt o srid gval => HEX ; <Unmarshal outcome> ; <Decoder outcome>` -/
-def handleRt (inp out : Toks) : String :=
-  match (do
-    let (ot, i) ← tok inp
-    let o ← parseOrder ot
-    let (srid, i) ← nat i
-    let (v, _) ← gval i
-    pure (o, srid, v)) with
-  | none => "bad input"
-  | some (o, srid, v) =>
+/-- judge of `rt` / `wrt`: encoder bytes, both decoders, and the agreement of the other exported
+    encoder entry points (4th segment, `same` when they all wrote the same bytes) -/
+def judgeRt (o : Order) (srid : Nat) (v : GVal UInt64) (out : Toks) : String :=
     match splitSemi out with
-    | [[hex], um, st] =>
+    | [hex] :: um :: st :: more =>
       let mbytes := encode o srid v
       let mhex := hexOfBytes mbytes
       let mum := showOutcome (unmarshal mbytes)
@@ -82,6 +75,13 @@ def handleRt (inp out : Toks) : String :=
       let fin (s : String) : String := if s.startsWith "propfail" || agree then s else s!"diff {mhex} ; {mum} ; {mst}"
       fin <|
       if um == ["panic"] || st == ["panic"] || hex == "panic" then "propfail panic" else
+      match more with
+      | _ :: _ :: _ => "bad output"
+      | [api] => if api != ["same"] then "propfail encoder-entry-points-disagree " ++ " ".intercalate api else judgeVal v hex um st
+      | [] => judgeVal v hex um st
+    | _ => if out == ["panic"] then "propfail panic" else "bad output"
+where
+  judgeVal (v : GVal UInt64) (hex : String) (um st : Toks) : String :=
       match v with
       | .val g =>
         -- property: both decoders return the canonical value and the srid that was written
@@ -90,7 +90,29 @@ def handleRt (inp out : Toks) : String :=
         else if " ".intercalate st != want then "propfail stream-roundtrip"
         else (match g with | .collection _ => "ok coll" | .point _ => "ok point" | _ => "ok geom")
       | _ => if hex != "empty" then "propfail nil-encodes-to-bytes" else "ok triv-nil"
-    | _ => if out == ["panic"] then "propfail panic" else "bad output"
+
+/-- `rt o srid gval => HEX ; <Unmarshal outcome> ; <Decoder outcome> [; same|<entry points that differ>]` (package ewkb) -/
+def handleRt (inp out : Toks) : String :=
+  match (do
+    let (ot, i) ← tok inp
+    let o ← parseOrder ot
+    let (srid, i) ← nat i
+    let (v, _) ← gval i
+    pure (o, srid, v)) with
+  | none => "bad input"
+  | some (o, srid, v) => judgeRt o srid v out
+
+/-- `wrt o gval => HEX ; <wkb.Unmarshal> ; <wkb.NewDecoder.Decode> ; same|…` (package wkb: no SRID) -/
+def handleWrt (inp out : Toks) : String :=
+  match (do
+    let (ot, i) ← tok inp
+    let o ← parseOrder ot
+    let (v, _) ← gval i
+    pure (o, v)) with
+  | none => "bad input"
+  | some (o, v) =>
+    let r := judgeRt o 0 v out
+    if r.startsWith "ok " then "ok wkb-" ++ (r.drop 3).toString else r
 
 /-- `seq n (o srid how gval)* => HEX ; outcome ; … ; outcome` : one Encoder, one Decoder, a stream of values -/
 def handleSeq (inp out : Toks) : String :=
@@ -143,7 +165,35 @@ def frameBytes (framing : String) (prefixSrid : Nat) (bs : Bytes) : Option Bytes
   | "prefix" => some (u32 .little prefixSrid ++ bs)
   | _ => none
 
-/-- `sc o srid dest framing psrid gval => outcome` : ewkb.Scanner / ScannerPrefixSRID -/
+/-- The `*orb.Bound` destination.  Finite, non-negative-zero coordinates: the Float twin of the core
+    bound model (`bndF`).  With a NaN or a -0 the twin is not bit-compatible with Go's math.Min/Max, so
+    for the value the round trip denotes (`canon g`) the reference is orb's own `Bound()` of that value,
+    which the harness sends as a trailing `; B x y x y` segment (the scan model and `scan_table` are
+    parametric in the bound function). -/
+def boundWith (g : G) (oracle : Option (Pt UInt64 × Pt UInt64)) : BoundFn := fun g' =>
+  match oracle with
+  | some b => if (hasNaN g' || hasNegZero g') && showGeom g' == showGeom (canon g) then b else bndF g'
+  | none => bndF g'
+
+/-- can the bound destination be judged?  `decoded` is what the same scanner returns for destination nil.
+    Not when that value has a NaN / -0 and no reference bound is available for it (no oracle sent, or the
+    bytes decode to something else than `canon g`, as in the ambiguous-prefix class of `wkb.Scanner`). -/
+def boundJudgeable (g : G) (oracle : Option (Pt UInt64 × Pt UInt64)) (decoded : R (G × Nat)) : Bool :=
+  match decoded with
+  | .ok (g', _) => !(hasNaN g' || hasNegZero g') || (oracle.isSome && showGeom g' == showGeom (canon g))
+  | _ => true
+
+/-- split `outcome… [; B x y x y]` -/
+def splitOracle (out : Toks) : Toks × Option (Pt UInt64 × Pt UInt64) :=
+  match splitSemi out with
+  | [o] => (o, none)
+  | [o, b] =>
+    (match geom b with
+     | some (.bound a c, []) => (o, some (a, c))
+     | _ => (out, none))
+  | _ => (out, none)
+
+/-- `sc o srid dest framing psrid gval => outcome [; bound oracle]` : ewkb.Scanner / ScannerPrefixSRID -/
 def handleSc (inp out : Toks) : String :=
   match (do
     let (ot, i) ← tok inp
@@ -158,47 +208,64 @@ def handleSc (inp out : Toks) : String :=
     pure (o, srid, d, framing, psrid, g, framed)) with
   | none => "bad input"
   | some (_o, srid, d, framing, psrid, g, framed) =>
+    let (outc, oracle) := splitOracle out
+    let got := " ".intercalate outc
+    if got == "panic" then "propfail panic" else
     let isPrefix := framing == "prefix"
-    let m := ewkbScan bndF isPrefix d framed
+    if d == .bound && !boundJudgeable g oracle (ewkbScan bndF isPrefix .any framed) then "skip nan-bound" else
+    let bnd := boundWith g oracle
+    let m := ewkbScan bnd isPrefix d framed
     let ms := showOutcome m
-    let got := " ".intercalate out
-    let nanBound := d == .bound && (hasNaN g || hasNegZero g)
-    let agree := ms == got || nanBound
+    let agree := ms == got
     let fin (s : String) : String := if s.startsWith "propfail" || agree then s else "diff " ++ ms
     fin <|
-    if got == "panic" then "propfail panic" else
-    if nanBound then "skip nan-bound" else
     -- the documented coercion table, on the value the round trip denotes
     let wantSrid := if isPrefix then (if srid != 0 then srid else psrid) else srid
-    let want := match coerce bndF d (canon g) with
+    let want := match coerce bnd d (canon g) with
       | some v => showOutcome (.ok (v, wantSrid))
       | none => "err incorrect"
-    if got != want then "propfail scan-coercion " ++ (if (coerce bndF d (canon g)).isSome then "value" else "mismatch-not-rejected")
-    else if (coerce bndF d (canon g)).isSome then (if d == .any then "ok scan-any" else "ok scan-coerced") else "ok scan-rejected"
+    if got != want then "propfail scan-coercion " ++ (if (coerce bnd d (canon g)).isSome then "value" else "mismatch-not-rejected")
+    else if (coerce bnd d (canon g)).isSome then
+      (if d == .any then "ok scan-any" else if d == .bound && (hasNaN g || hasNegZero g) then "ok scan-bound-bits" else "ok scan-coerced")
+    else "ok scan-rejected"
 
-/-- `wsc dest framing psrid gval => outcome` : the deprecated wkb.Scanner with its MySQL prefix retry -/
+/-- destination token of `wsc`: `PG` (little endian, no SRID) or `PG:<order>:<srid>` -/
+def parseWscDest (s : String) : Option (Dest × Order × Nat) :=
+  match s.splitOn ":" with
+  | [d] => (parseDest d).map fun d => (d, .little, 0)
+  | [d, o, n] => do
+    let d ← parseDest d
+    let o ← parseOrder o
+    let n ← n.toNat?
+    pure (d, o, n)
+  | _ => none
+
+/-- `wsc dest[:o:srid] framing psrid gval => outcome [; bound oracle]` : the deprecated wkb.Scanner with its
+    MySQL prefix retry.  The known-finding label `ambiguous-first-byte` is emitted ONLY when the prefix is
+    in the documented ambiguous class AND the implementation does exactly what the model of the code does;
+    any other disagreement in that class is a `diff`. -/
 def handleWsc (inp out : Toks) : String :=
   match (do
     let (dt, i) ← tok inp
-    let d ← parseDest dt
+    let (d, o, srid) ← parseWscDest dt
     let (framing, i) ← tok i
     let (psrid, i) ← nat i
     let (g, _) ← geom i
-    let framed ← frameBytes framing psrid (encode .little 0 (.val g))
+    let framed ← frameBytes framing psrid (encode o srid (.val g))
     pure (d, framing, psrid, g, framed)) with
   | none => "bad input"
   | some (d, framing, psrid, g, framed) =>
-    let m : R (G × Nat) := match wkbScan bndF d framed with
+    let (outc, oracle) := splitOracle out
+    let got := " ".intercalate outc
+    if got == "panic" then "propfail panic" else
+    if d == .bound && !boundJudgeable g oracle (match wkbScan bndF .any framed with
+        | .ok g => .ok (g, 0) | .err e => .err e | .panic s => .panic s) then "skip nan-bound" else
+    let bnd := boundWith g oracle
+    let m : R (G × Nat) := match wkbScan bnd d framed with
       | .ok g => .ok (g, 0) | .err e => .err e | .panic s => .panic s
     let ms := showOutcome m
-    let got := " ".intercalate out
-    let nanBound := d == .bound && (hasNaN g || hasNegZero g)
-    let agree := ms == got || nanBound
-    let fin (s : String) : String := if s.startsWith "propfail" || agree then s else "diff " ++ ms
-    fin <|
-    if got == "panic" then "propfail panic" else
-    if nanBound then "skip nan-bound" else
-    let want := match coerce bndF d (canon g) with
+    let agree := ms == got
+    let want := match coerce bnd d (canon g) with
       | some v => showOutcome (.ok (v, 0))
       | none => "err incorrect"
     if got != want then
@@ -206,8 +273,234 @@ def handleWsc (inp out : Toks) : String :=
       let b0 := psrid % 256
       let b1 := (psrid / 256) % 256
       let amb := framing == "prefix" && (b0 == 0 || b0 == 1 || (b0 == 48 && (b1 == 48 || b1 == 49)) || (b0 == 92 && b1 == 120))
-      "propfail wkb-scanner-prefix " ++ (if amb then "ambiguous-first-byte" else "other")
-    else "ok wkb-scan"
+      if amb then (if agree then "propfail wkb-scanner-prefix ambiguous-first-byte" else "diff " ++ ms)
+      else if framing == "prefix" then "propfail wkb-scanner-prefix other"
+      else "propfail wkb-scanner-coercion " ++ (if (coerce bnd d (canon g)).isSome then "value" else "mismatch-not-rejected")
+    else if !agree then "diff " ++ ms
+    else if d == .bound && (hasNaN g || hasNegZero g) then "ok wkb-scan-bound-bits" else "ok wkb-scan"
+
+/-! ### driver.Valuer round trip -/
+
+def showStep (r : ScanState × Option Err) : String :=
+  match r.2 with
+  | some e => "err " ++ errClass e
+  | none => if r.1.valid then
+      (match r.1.geom with | some g => s!"ok {r.1.srid} {showGeom g}" | none => s!"ok {r.1.srid} nil")
+    else "null"
+
+/-- `val kind srid gval => <hex|nil|typednil> ; <scan outcome>` : `wkb.Value` / `ewkb.Value` / `ewkb.ValuePrefixSRID`
+    read back by `wkb.Scanner` / `ewkb.Scanner` / `ewkb.ScannerPrefixSRID` (destination nil) -/
+def handleVal (inp out : Toks) : String :=
+  match (do
+    let (k, i) ← tok inp
+    let (srid, i) ← nat i
+    let (v, _) ← gval i
+    if k == "w" || k == "e" || k == "p" then pure (k, srid, v) else none) with
+  | none => "bad input"
+  | some (k, srid, v) =>
+    if out == ["panic"] then "propfail panic" else
+    -- model of the Valuer: nil when Marshal wrote nothing
+    let payload := encode .little (if k == "e" then srid else 0) v
+    let mval : Option Bytes :=
+      if payload.isEmpty then none else some (if k == "p" then u32 .little srid ++ payload else payload)
+    let mvtok := match mval with | none => "nil" | some b => hexOfBytes b
+    let inp' : ScanIn := match mval with | none => .null | some b => .bytes b
+    let mstep : R (ScanState × Option Err) :=
+      if k == "w" then wkbScanStep bndF .any ScanState.fresh inp' else ewkbScanStep bndF (k == "p") .any ScanState.fresh inp'
+    let ms := match mstep with | .ok r => showStep r | .err e => "err " ++ errClass e | .panic _ => "panic"
+    let model := mvtok ++ " ; " ++ ms
+    let got := " ".intercalate out
+    let fin (s : String) : String := if s.startsWith "propfail" || model == got then s else "diff " ++ model
+    fin <|
+    match splitSemi out with
+    | [[vt], sc] =>
+      let scs := " ".intercalate sc
+      if scs == "panic" then "propfail panic" else
+      (match v with
+       | .val g =>
+         let want := showOutcome (.ok (canon g, if k == "w" then 0 else srid))
+         if vt == "nil" || vt == "typednil" then "propfail value-of-geometry-is-null"
+         else if scs != want then "propfail value-roundtrip " ++ k
+         else "ok value-" ++ k
+       | _ =>
+         if vt != "nil" then "propfail nil-value-not-null " ++ vt
+         else if scs != "null" then
+           -- the specific label (a candidate known finding) only for exactly what the model of the code
+           -- does: ScannerPrefixSRID fails the `d.([]byte)` assertion on a nil interface
+           (if model == got && k == "p" && scs == "err datatype" then "propfail null-roundtrip p-scanner-rejects-null"
+            else "propfail null-roundtrip other " ++ k)
+         else "ok triv-null-" ++ k)
+    | _ => "bad output"
+
+/-! ### sizes above the allocation caps -/
+
+def fnv (s : String) : String :=
+  natToHex (s.foldl (fun (h : UInt64) c => (h ^^^ UInt64.ofNat c.toNat) * 0x100000001b3) 0xcbf29ce484222325).toNat 16
+
+/-- mirror of the harness's `bigGeom`: point number `k` is (bits base+2k, bits base+2k+1) -/
+def bigGeom (shape : String) (n : Nat) (base : UInt64) : Option G :=
+  let pt (k : Nat) : Pt UInt64 := ⟨base + 2 * UInt64.ofNat k, base + 2 * UInt64.ofNat k + 1⟩
+  let pts (k0 m : Nat) : List (Pt UInt64) := (List.range m).map fun i => pt (k0 + i)
+  match shape with
+  | "LS" => some (.lineString (pts 0 n))
+  | "R" => some (.ring (pts 0 n))
+  | "MP" => some (.multiPoint (pts 0 n))
+  | "MLS" => some (.multiLineString ((List.range n).map fun i => pts (3*i) (i % 3)))
+  | "PG" => some (.polygon ((List.range n).map fun i => pts (3*i) (i % 3)))
+  | "MPG" => some (.multiPolygon ((List.range n).map fun i =>
+      (List.range (i % 2 + 1)).map fun j => pts (6*i + 3*j) ((i + j) % 3)))
+  | "C" => some (.collection ((List.range n).map fun i =>
+      match i % 4 with
+      | 0 => .point (pt i)
+      | 1 => .lineString (pts (2*i) 2)
+      | 2 => .multiPoint (pts i 1)
+      | _ => .polygon []))
+  | "CC" => some (.collection [.collection ((List.range n).map fun i => .point (pt i)), .point (pt n)])
+  | "PGR" => some (.polygon [pts 0 n, pts n 3])
+  | "MLSL" => some (.multiLineString [pts 0 n, pts n 2])
+  | "MPGR" => some (.multiPolygon [[pts 0 n, pts n 1], [pts (n+1) 2]])
+  | "CLS" => some (.collection [.lineString (pts 0 n), .point (pt n), .polygon [pts (n+1) n]])
+  | _ => none
+
+def kindTok : G → String
+  | .point _ => "P" | .multiPoint _ => "MP" | .lineString _ => "LS" | .ring _ => "R"
+  | .multiLineString _ => "MLS" | .polygon _ => "PG" | .multiPolygon _ => "MPG" | .bound _ _ => "B"
+  | .collection _ => "C"
+
+def digest (r : R (G × Nat)) : String :=
+  match r with
+  | .ok (g, srid) => s!"ok {srid} {kindTok g} {(coords g).length / 2} {fnv (showGeom g)}"
+  | .err e => "err " ++ errClass e
+  | .panic _ => "panic"
+
+def allDests : List Dest :=
+  [.any, .point, .multiPoint, .lineString, .multiLineString, .ring, .polygon, .multiPolygon, .collection, .bound]
+
+/-- `big shape n o srid base => <len> <fnv of hex> ; <Unmarshal> ; <Decoder> ; <ewkb.Scanner into each of the 10
+    destinations>` with outcomes as digests `ok srid KIND npoints fnv` -/
+def handleBig (inp out : Toks) : String :=
+  match (do
+    let (shape, i) ← tok inp
+    let (n, i) ← nat i
+    let (ot, i) ← tok i
+    let o ← parseOrder ot
+    let (srid, i) ← nat i
+    let (bt, _) ← tok i
+    let base ← hexToNat? bt
+    let g ← bigGeom shape n (UInt64.ofNat base)
+    pure (o, srid, n, g)) with
+  | none => "bad input"
+  | some (o, srid, n, g) =>
+    if out == ["panic"] then "propfail panic" else
+    let segs := (splitSemi out).map (" ".intercalate ·)
+    if segs.any (· == "panic") then "propfail panic" else
+    let mbytes := encGeom o srid g
+    let mhead := s!"{mbytes.length} {fnv (hexOfBytes mbytes)}"
+    let mum := digest (unmarshal mbytes)
+    let mst := digest (decode mbytes)
+    let msc := allDests.map fun d => digest (scan bndF d mbytes)
+    let model := mhead :: mum :: mst :: msc
+    let fin (s : String) : String := if s.startsWith "propfail" || model == segs then s else "diff " ++ " ; ".intercalate model
+    fin <|
+    match segs with
+    | _head :: um :: st :: sc =>
+      let want := digest (.ok (canon g, srid))
+      if um != want then "propfail unmarshal-roundtrip large " ++ um
+      else if st != want then "propfail stream-roundtrip large " ++ st
+      else
+        let wants := allDests.map fun d => match coerce bndF d (canon g) with
+          | some v => digest (.ok (v, srid))
+          | none => "err incorrect"
+        if sc != wants then "propfail scan-coercion large"
+        else if n > 10000 then "ok large-points" else if n > 100 then "ok large-multi" else "ok at-cap"
+    | _ => "bad output"
+
+/-! ### one scanner value reused over several rows -/
+
+def parseScanItem (ts : Toks) : Option ((ScanIn × Bool) × Toks) :=
+  match ts with
+  | "null" :: ts => some ((.null, false), ts)
+  | "nilb" :: ts => some ((.nilBytes, false), ts)
+  | "b" :: ts => do
+    let (ot, ts) ← tok ts
+    let o ← parseOrder ot
+    let (srid, ts) ← nat ts
+    let (framing, ts) ← tok ts
+    let (psrid, ts) ← nat ts
+    let (g, ts) ← geom ts
+    let framed ← frameBytes framing psrid (encode o srid (.val g))
+    pure ((.bytes framed, hasNaN g || hasNegZero g), ts)
+  | _ => none
+
+def showGeomOpt : Option G → String
+  | some g => showGeom g
+  | none => "nil"
+
+/-- the fields after a `Scan`, as the harness prints them: `<err class|-> <valid> <srid> <geometry|nil>` -/
+def showFields (r : ScanState × Option Err) : String :=
+  let e := match r.2 with | some e => errClass e | none => "-"
+  s!"{e} {if r.1.valid then 1 else 0} {r.1.srid} {showGeomOpt r.1.geom}"
+
+/-- `scq which dest n item* => step ; … ; step` : one `GeometryScanner` value (`e` ewkb.Scanner, `p`
+    ewkb.ScannerPrefixSRID, `w` wkb.Scanner) scans `n` rows.  Model: the state machine of the code
+    (`ewkbScanStep` / `wkbScanStep`).  Property: every row reads as it would on a fresh scanner
+    (error, Valid, Geometry, and the SRID of a valid row). -/
+def handleScq (inp out : Toks) : String :=
+  match (do
+    let (w, i) ← tok inp
+    let (dt, i) ← tok i
+    let d ← parseDest dt
+    let (n, i) ← nat i
+    let (items, _) ← many parseScanItem n i
+    if w == "e" || w == "p" || w == "w" then pure (w, d, items) else none) with
+  | none => "bad input"
+  | some (w, d, items0) =>
+    let items := items0.map (·.1)
+    if out == ["panic"] then "propfail panic" else
+    if d == .bound && items0.any (·.2) then "skip nan-bound-rows" else
+    let segs := (splitSemi out).map (" ".intercalate ·)
+    if segs.any (· == "panic") then "propfail panic" else
+    -- (NaN / -0 into the bound destination is not judged here: `sc` / `wsc` do, with the bound oracle)
+    let step (σ : ScanState) (x : ScanIn) : R (ScanState × Option Err) :=
+      if w == "w" then wkbScanStep bndF d σ x else ewkbScanStep bndF (w == "p") d σ x
+    let rec run (σ : ScanState) (xs : List ScanIn) (acc : List String) : List String :=
+      match xs with
+      | [] => acc.reverse
+      | x :: xs =>
+        (match step σ x with
+         | .ok r => run r.1 xs (showFields r :: acc)
+         | _ => ("panic" :: acc).reverse)
+    let model := run ScanState.fresh items []
+    let stripDD (s : String) : String := if s.endsWith " dest-differs" then (s.dropEnd 13).toString else s
+    let gotFields := segs.map stripDD
+    if segs.any (·.endsWith " dest-differs") then "propfail scanner-destination-differs" else
+    -- the property, on the IMPLEMENTATION's rows: each must equal what the fresh-scanner model gives
+    let fresh := items.map fun x => match step ScanState.fresh x with
+      | .ok f => showFieldsObs f | _ => "panic"
+    let gotObs := gotFields.map obsOfFields
+    let agree := gotFields == model
+    if gotObs != fresh then
+      -- which clause: a NULL row that keeps the previous row, or a stale SRID / value
+      let idx := firstDiff gotObs fresh 0
+      let isNull := match items[idx]? with | some .null => true | _ => false
+      -- the specific label (a candidate known finding) only when the implementation does exactly what the
+      -- model of the code does, i.e. the ONLY deviation from a fresh scanner is wkb.Scanner keeping the
+      -- previous row on a nil interface
+      if agree && isNull && w == "w" then "propfail scanner-reuse stale-after-null w"
+      else if agree then "propfail scanner-reuse history-dependent " ++ w
+      else "propfail scanner-reuse row-differs-from-fresh " ++ w
+    else if !agree then "diff " ++ " ; ".intercalate model
+    else if items.length ≥ 2 then "ok scanner-reuse-" ++ w else "ok triv-scanner-reuse"
+where
+  /-- observable part of a printed row: error, valid, geometry, and the SRID only if valid -/
+  obsOfFields (s : String) : String :=
+    match s.splitOn " " with
+    | e :: v :: srid :: rest => " ".intercalate (e :: v :: (if v == "1" then srid else "0") :: rest)
+    | _ => s
+  showFieldsObs (r : ScanState × Option Err) : String := obsOfFields (showFields r)
+  firstDiff : List String → List String → Nat → Nat
+    | a :: as, b :: bs, i => if a == b then firstDiff as bs (i+1) else i
+    | _, _, i => i
 
 def handle (ts : Toks) : String :=
   match ts with
@@ -215,8 +508,12 @@ def handle (ts : Toks) : String :=
     let (inp, out) := splitArrow rest
     match op with
     | "rt" => handleRt inp out
+    | "wrt" => handleWrt inp out
+    | "val" => handleVal inp out
+    | "big" => handleBig inp out
     | "seq" => handleSeq inp out
     | "sc" => handleSc inp out
+    | "scq" => handleScq inp out
     | "wsc" => handleWsc inp out
     | _ => "bad op " ++ op
   | [] => "bad empty"
